@@ -621,6 +621,11 @@ func (r *c14Re) alphabet(set map[byte]bool) {
 		set[' '] = true
 		set['\n'] = true
 		set['\t'] = true
+		// bytes that are white space to OTHER definitions (C isspace, unicode.IsSpace) but not to \s of the reference
+		// engine nor to the `whitespace` class: vertical tab, the information separators
+		set['\v'] = true
+		set[0x1c] = true
+		set[0x1f] = true
 	case '^', '$':
 		set['\n'] = true
 	case 'S', 'A':
